@@ -788,7 +788,7 @@ fn reserve_family() -> GenParams {
         specs: PRAGUE_SPECS,
         txs: (3, 12),
         n_eoa: 4,
-        n_con: 3,
+        n_con: 4,
         mix: Mix { call: 14, create: 3, selfdestruct: 2, sload: 4, sstore: 4, terminate: 3, slots: 3, vmax: 6_000_000, len: (3, 9), ..Mix::default() },
         kind_w: [4, 2, 3, 12],
         auth_pct: 20,
